@@ -228,7 +228,30 @@ pub fn gen_ownership(rng: &mut Rng, tier: &Tier) -> Vec<Case> {
 /// a small ownership workload for the Miri run of C19's thorough tier (the interpreter is ~100x slower there)
 pub fn gen_ownership_small(rng: &mut Rng) -> Vec<Case> {
     let mut cases = Vec::new();
-    for kind in ["median", "mean", "max", "bounds", "convolve", "delay"] {
+    for kind in ["median", "mean", "max", "min", "bounds", "convolve", "delay"] {
+        for n in [1usize, 2, 4] {
+            // a second program per width: periodic samples (the new sample equals the one leaving the window), a
+            // reset on a full window, more samples, a guts round trip, everything dropped
+            let first = match kind {
+                "convolve" => format!("convolve c={} T=tracked", vec!["1"; n].join(",")),
+                k => format!("{} N={} T=tracked", k, n),
+            };
+            let mut c = vec![format!("new 1 {}", first)];
+            for i in 0..(2 * n + 1) {
+                c.push(format!("f 1 {}", (i % n) as i64));
+            }
+            c.push("reset 1".into());
+            c.push("live".into());
+            for i in 0..(n + 1) {
+                c.push(format!("f 1 {}", i as i64));
+            }
+            c.push("gutsrt 1 2".into());
+            c.push("f 2 7".into());
+            c.push("drop 1".into());
+            c.push("drop 2".into());
+            c.push("live".into());
+            cases.push(c);
+        }
         for n in [1usize, 3] {
             let first = match kind {
                 "convolve" => format!("convolve c={} T=tracked", vec!["1"; n].join(",")),
